@@ -142,7 +142,23 @@ impl<'a> Pratt<'a> {
                 Ok(Sx::leaf(d, t))
             }
             Some(Tok::Open('[')) => {
-                // a side-effect block before a value is its left child
+                // a side-effect block before a value is its left child — where the language defines the placement: after a
+                // closing bracket or a suffix operator (with or without a list space in between) the block is neither next to
+                // the value before it nor clearly the next value's (recorded side-effect placement findings): not read
+                let mut k = self.pos;
+                while k > 0 && matches!(&self.toks[k - 1], Tok::Op(o) if o.text == " ") {
+                    k -= 1;
+                }
+                if k > 0 && matches!(&self.toks[k - 1], Tok::Close(_)) {
+                    return Err("side-effect block after a closing bracket".into());
+                }
+                if k > 0 && k < self.pos && matches!(&self.toks[k - 1], Tok::Atom(..)) {
+                    // `a [x] b`: the block belongs to the value before it, across the list space
+                    return Err("side-effect block after a value and a list space belongs to that value".into());
+                }
+                if k > 0 && matches!(&self.toks[k - 1], Tok::Op(o) if o.fix == Fix::Suffix) {
+                    return Err("side-effect block after a suffix operator".into());
+                }
                 let se = self.side_effect()?;
                 match self.peek() {
                     Some(Tok::Atom(d, t)) => {
